@@ -451,3 +451,75 @@ def _sample_obligations(ctx: Ctx, env: BatchEnv, tag: str, fS) -> None:
         r = it.method(env.batch, "sample", tuple(env.grids))
         return r is env.batch, "sampling on own grids must return the same batch"
     _guard(ctx, "T13.sample", f"{tag}:own grids", fS, f"sample own grids {tag}", same)
+
+
+def run_pyramid(ctx: Ctx) -> None:
+    """ImageBatch.pyramid / Image.pyramid: the finest level is resampled at the positions its returned grid names."""
+    prog = ctx.prog
+    fP = prog.func("deepali.data.image", "ImageBatch.pyramid")
+    ctx.fn(fP)
+    ctx.rule("T13.pyramid", "ImageBatch.pyramid(levels, spacing=h | None) for either align_corners: whichever torch resampler produces the finest "
+                            "level — grid_sample with explicit coordinates or interpolate with a size and a flag — reads, for sample j of the "
+                            "returned level-0 grid, the source image at the continuous index W_src^-1(W_level0(j)) (explicit coordinates "
+                            "unnormalised by torch's rule for the flag handed over; interpolate's index map for its flag); every level "
+                            "carries one grid per image whose shape matches the data")
+    from .t11_expv import identity_coords  # noqa: F401  (same normalisation conventions)
+    for D, size in ((2, (5, 4)),):
+        for ac in (True, False):
+            for hfac in (None, Fraction(1, 2), Fraction(2, 3), 2):
+                def th(D=D, size=size, ac=ac, hfac=hfac):
+                    reset_relations()
+                    facts = fresh_facts()
+                    it = make_interp(ctx)
+                    Grid = prog.cls("deepali.core.grid", "Grid")
+                    Axes = prog.cls("deepali.core.grid", "Axes")
+                    IB = prog.cls("deepali.data.image", "ImageBatch")
+                    c = [Rat.atom(f"c{i}") for i in range(D)]
+                    g = it.new(Grid, size=size, spacing=(1,) * D, center=STensor.from_flat(c, [D]), direction=rotation(D), align_corners=ac)
+                    data = STensor.symbols("I", [1, 1] + list(reversed(size)))
+                    batch = it.new(IB, data.clone(), (g,))
+                    del symt.GRID_SAMPLE_CALLS[:]
+                    del symt.INTERPOLATE_CALLS[:]
+                    kw = {} if hfac is None else {"spacing": hfac}
+                    pyr = it.method(batch, "pyramid", 1, **kw)
+                    lv0 = pyr[0]
+                    g0 = it.method(lv0, "grids")[0]
+                    n0 = [int(x) for x in it.method(g0, "size")]
+                    if list(lv0.shape[2:]) != list(reversed(n0)):
+                        return False, f"level 0 data shape {list(lv0.shape)} vs grid size {n0}"
+                    GR, W = it.enum(Axes, "GRID"), it.enum(Axes, "WORLD")
+                    m = compose(as_h(it.method(g, "transform", W, GR)), as_h(it.method(g0, "transform", GR, W)))  # level-0 index -> source index
+                    if tuple(n0) == tuple(size) and not symt.GRID_SAMPLE_CALLS and not symt.INTERPOLATE_CALLS:
+                        return teq(m, identity_h(D)), "finest level has the size of the image but another geometry"
+                    if symt.GRID_SAMPLE_CALLS:
+                        call = symt.GRID_SAMPLE_CALLS[0]
+                        a = bool(call["align_corners"])
+                        coords = call["grid"][0].reshape([-1, D])
+                        k = 0
+                        for idx in itertools.product(*[range(n) for n in reversed(n0)]):
+                            j = list(reversed(idx))  # (x, y[, z])
+                            want = apply(m, STensor.from_flat(j, [D]))
+                            for d in range(D):
+                                cc = to_rat(coords[k, d].flat()[0])
+                                src = (cc + 1) * (size[d] - 1) / 2 if a else ((cc + 1) * size[d] - 1) / 2
+                                if not src.equals(to_rat(want[d].flat()[0])):
+                                    return False, (f"spacing={hfac}: level-0 sample {j} is read at source index {src} along axis {d}, its grid places "
+                                                   f"it at source index {to_rat(want[d].flat()[0])} (coordinates of the new grid's own cube were "
+                                                   f"handed to torch as coordinates of the image's cube)")
+                            k += 1
+                        return True, ""
+                    if symt.INTERPOLATE_CALLS:
+                        call = symt.INTERPOLATE_CALLS[0]
+                        a = bool(call["align_corners"])
+                        for d in range(D):
+                            n_in, n_out = size[d], n0[d]
+                            for j in (0, n_out - 1):
+                                src = Fraction(j * (n_in - 1), max(n_out - 1, 1)) if a else Fraction(2 * j + 1, 2) * Fraction(n_in, n_out) - Fraction(1, 2)
+                                e = STensor.from_flat([j if q == d else 0 for q in range(D)], [D])
+                                want = to_rat(apply(m, e)[d].flat()[0])
+                                if not Rat.of(src).equals(want):
+                                    return False, (f"spacing={hfac}: interpolate(align_corners={a}) reads level-0 sample {j} of axis {d} at source "
+                                                   f"index {src}, its grid places it at {want}")
+                        return True, ""
+                    return False, "no resampling call seen for the finest level"
+                _guard(ctx, "T13.pyramid", f"D={D}:ac={ac}:h={hfac}", fP, f"pyramid spacing={hfac} D={D} align_corners={ac}", th)
